@@ -4,7 +4,7 @@
    combinations x namespace/environment rows: InvPost (C04 at the first instruction), no kernel
    refusal, termination (except the known stop-before-sync hang).
 2. Gen: TLC decodes the orchestrator's (site,row) index pairs (thorough: full factorial of the nine
-   site flags x 3 covering rows + random pairs; quick: seed-sampled subset) into option records.
+   site flags x 2 covering rows + random pairs; quick: seed-sampled subset) into option records.
 3. Every case is started for real (forkexec.Runner, static probe as target); non-ptrace cases
    additionally under strace -f.
 4. Judge: TLC judges every observation line against Post / Final (Launch_Judge).
@@ -38,8 +38,10 @@ def run(ctx):
     if quick:
         rows = {rng.choice([0, 1, 3, 5, 257, 2, 6, 130, 384, 511])}
     else:
-        rows = {a | b | c | d | e for a in (0, 1) for b in (0, 2) for c in (0, 4) for d in (0, 256) for e in (0, 128 | 8 | 16 | 32 | 64)}
-        rows |= {511, 8, 16, 32, 64}
+        # user pid mnt combinations, each once with everything else off and once with the rest (and amb) on
+        # (the other row flags only add to the namespace set / the launcher's inheritable+ambient sets)
+        rest = [0, 256, 128, 8 | 16 | 32 | 64, 256 | 128, 64 | 256, 8 | 128, 16 | 32 | 256]
+        rows = {(a | b | c) | rest[(a + b + c) % 8] for a in (0, 1) for b in (0, 2) for c in (0, 4)} | {511}
     import threading, time
     mc = {}
 
@@ -52,7 +54,7 @@ def run(ctx):
     # ---- 2. cases: full factorial of the site flags x rows
     cov = lc.covering_rows(rng)
     pairs = set()
-    nrow = ctx.pick(1, 3)
+    nrow = ctx.pick(1, 2)
     sites = list(range(512))
     if quick:
         sites = rng.sample(sites, 176)       # seed-sampled subset of the factorial; thorough takes all 512
@@ -63,7 +65,7 @@ def run(ctx):
             if dropping and rng.random() < 0.75:
                 rw |= 256                    # ambient launcher: makes a lost capset visible
             pairs.add(s * 512 + rw)
-    for _ in range(ctx.pick(24, 400)):
+    for _ in range(ctx.pick(24, 100)):
         pairs.add(rng.randrange(512) * 512 + rng.randrange(512))
     g = ctx.tlc("Launch_Gen", cfg="CONSTANTS\n  C04Pairs = {%s}\n  C07Bases = {}\nINIT Init\nNEXT Next\n" % ",".join(map(str, sorted(pairs))),
                 timeout=600, count=False)
@@ -79,7 +81,7 @@ def run(ctx):
     st_pool = [c for c in cases if not c["nostrace"]]
     rng.shuffle(st_pool)
     st_cases = []
-    for i, c in enumerate(st_pool[:ctx.pick(40, 400)]):
+    for i, c in enumerate(st_pool[:ctx.pick(40, 160)]):
         c2 = dict(c)
         c2["id"] = 100000 + i
         st_cases.append(c2)
